@@ -40,6 +40,11 @@ pub struct Parsed {
 
 /// Parse a whole text the way the shell's read-eval loop does (without executing).
 pub fn parse_all(text: &str) -> Parsed {
+    parse_all_with(text, &yash_syntax::alias::EmptyGlossary)
+}
+
+/// the same with an alias glossary
+pub fn parse_all_with(text: &str, aliases: &dyn yash_syntax::alias::Glossary) -> Parsed {
     let lines: Vec<String> = text.split_inclusive('\n').map(|s| s.to_string()).collect();
     let nlines = lines.len();
     let calls = Rc::new(Cell::new(0));
@@ -61,7 +66,7 @@ pub fn parse_all(text: &str) -> Parsed {
         if !lexer.pending() {
             lexer.flush();
         }
-        let mut parser = Parser::new(&mut lexer);
+        let mut parser = Parser::config().aliases(aliases).input(&mut lexer);
         let r = parser.command_line().now_or_never();
         match r {
             None => {
